@@ -212,6 +212,101 @@ func foldKeyRule(c *core.Ctx, rule string, min int) {
 			}
 			c.Check(okPrev, rule, name+":chain unlink uses the previous element", st.Pos(), "the element unlinked is bypassed from its immediate predecessor", "collision chain unlink `P.next = M.next` where P is not the loop-carried element visited just before M ("+eng.Describe(pfa.X)+"): entries between P and M are dropped")
 		})
+		// dropping the map slot discards every entry chained behind it: a delete is allowed only
+		// where the entry being removed is the head of its chain (no predecessor) and has no
+		// successor (entry.link == nil) — otherwise the other filters that fold to this key are lost.
+		linkOf := func(v ssa.Value) (ssa.Value, bool) { // v = load of entry.<self-typed pointer field>
+			u, ok := v.(*ssa.UnOp)
+			if !ok || u.Op != token.MUL {
+				return nil, false
+			}
+			fa, ok := u.X.(*ssa.FieldAddr)
+			if !ok || !isEntry(fa.X) || !types.Identical(u.Type(), fa.X.Type()) {
+				return nil, false
+			}
+			return fa.X, true
+		}
+		chained := false
+		for v := range E {
+			if _, ok := linkOf(v); ok {
+				chained = true
+			}
+		}
+		if chained {
+			selLink := func(x, y ssa.Value) bool {
+				_, ok := linkOf(x)
+				return ok && eng.IsNilConst(y)
+			}
+			noSucc := eng.EqPred("entry.link == nil", true, selLink)
+			selPrev := func(x, y ssa.Value) bool {
+				phi, ok := x.(*ssa.Phi)
+				if !ok || !isEntry(phi) || !eng.IsNilConst(y) {
+					return false
+				}
+				hasNil := false
+				for _, e := range phi.Edges {
+					if eng.IsNilConst(e) {
+						hasNil = true
+					}
+				}
+				return hasNil
+			}
+			isHead := eng.EqPred("predecessor == nil", true, selPrev)
+			for i, d := range deletes {
+				g1 := eng.Guarded(d, noSucc)
+				g2 := eng.Guarded(d, isHead)
+				c.Count("guard_cuts", 2)
+				key := fmt.Sprintf("%s:slot dropped only for a single-entry chain#%d", name, i)
+				switch {
+				case !(g1.Guarded && g1.Edges > 0):
+					c.Fail(rule, key, d.Pos(), "delete of the fold-keyed map slot is reachable while the entry being removed still has a successor in its collision chain (no `entry.link == nil` test cuts it off): the counters of the other filters that fold to the same key are dropped with it", g1.Witness...)
+				case !(g2.Guarded && g2.Edges > 0):
+					c.Fail(rule, key, d.Pos(), "delete of the fold-keyed map slot is reachable while the entry being removed has a predecessor in its collision chain (no `prev == nil` test cuts it off): the whole chain is dropped", g2.Witness...)
+				default:
+					c.OK(rule, key, d.Pos(), "the slot is deleted only when the removed entry is the head of its chain and has no successor")
+				}
+			}
+			if len(deletes) > 0 {
+				// the two other ways an entry leaves its chain must exist and be taken:
+				// head with a successor -> slot = entry.link; entry with a predecessor -> prev.link = entry.link
+				hasSucc := eng.EqPred("entry.link != nil", false, selLink)
+				hasPrev := eng.EqPred("predecessor != nil", false, selPrev)
+				relinkSlot := func(in ssa.Instruction) bool {
+					mu, ok := in.(*ssa.MapUpdate)
+					if !ok {
+						return false
+					}
+					_, isLink := linkOf(mu.Value)
+					return isLink
+				}
+				bypass := func(in ssa.Instruction) bool {
+					st, ok := in.(*ssa.Store)
+					if !ok {
+						return false
+					}
+					fa, ok := st.Addr.(*ssa.FieldAddr)
+					if !ok || !isEntry(fa.X) {
+						return false
+					}
+					_, isLink := linkOf(st.Val)
+					return isLink
+				}
+				ok1, w1 := eng.MustFollow(f, []eng.Pred{isHead, hasSucc}, relinkSlot)
+				ok1 = ok1 && eng.HasLicensingEdge(f, hasSucc)
+				if ok1 {
+					c.OK(rule, name+":head with successors re-links the slot", f.Pos(), "removing the head of a longer chain stores its successor in the map slot")
+				} else {
+					c.Fail(rule, name+":head with successors re-links the slot", f.Pos(), "a path removes the head of a collision chain that has a successor without storing the successor in the map slot (the removed entry stays reachable or the chain is lost)", w1...)
+				}
+				ok2, w2 := eng.MustFollow(f, []eng.Pred{hasPrev}, bypass)
+				ok2 = ok2 && eng.HasLicensingEdge(f, hasPrev)
+				if ok2 {
+					c.OK(rule, name+":inner entry is bypassed", f.Pos(), "removing an entry that has a predecessor links the predecessor to its successor")
+				} else {
+					c.Fail(rule, name+":inner entry is bypassed", f.Pos(), "a path removes an entry that has a predecessor in its collision chain without `prev.link = entry.link`", w2...)
+				}
+			}
+		}
 		if len(uses) == 0 {
 			c.OK(rule, name+":no use", f.Pos(), "fold-keyed lookup whose result is only tested, never used")
 			continue
